@@ -35,6 +35,8 @@ struct Stats {
                   multi_applicable = 0, mi_classes = 0, ambiguous_cells = 0,
                   nodef_cells = 0, inconclusive = 0;
     std::map<std::string, std::uint64_t> faults; // fired, by kind
+    // reach: completed updates by policy, tuples checked by method shape
+    std::map<std::string, std::uint64_t> reach;
     void add(const Stats& o);
     J json() const;
 };
